@@ -71,10 +71,10 @@ theorem octal_facts {x : Nat} (h : OctalDigit x) : 0x30 ≤ x ∧ x ≤ 0x37 ∧
 theorem eatLegacyOctalEscapeSequence_wb (r : List Nat) (s : St) (h : BAt src K r s) :
     Wp (eatLegacyOctalEscapeSequence s) (fun b s1 => Keep s s1 ∧
       if b = true then ∃ r1 v, BAt src K r1 s1 ∧ RxSpecB.CharacterEscape K.1 r r1 v ∧ s1.lastIntValue = (v : Nat)
-      else BAt src K r s1) := by
+      else BAt src K r s1 ∧ ∀ d, r.head? = some d → ¬OctalDigit d) := by
   unfold eatLegacyOctalEscapeSequence
   rx6_auto
-  all_goals (try rx6_false)
+  all_goals (try (rx6_falsen; assumption))
   · -- one digit
     rename_i s1 hk1 a m hr ha hat1 hv1 s2 hk2 hat2 hno
     rx6_true
@@ -130,19 +130,76 @@ theorem eatLegacyOctalEscapeSequence_wb (r : List Nat) (s : St) (h : BAt src K r
       show 0x30 ≤ a ∧ a ≤ 0x33; omega
     · st_norm; rw [hv1, hv2, hv3]; omega
 
+theorem legacyOctal_head {i r : List Nat} {v : Nat} (h : LegacyOctalEscapeSequence i r v) :
+    ∃ x m, i = x :: m ∧ OctalDigit x := by
+  have e0 : c '0' = 0x30 := rfl
+  have e1 : c '1' = 0x31 := rfl
+  have e3 : c '3' = 0x33 := rfl
+  have e4 : c '4' = 0x34 := rfl
+  have e7 : c '7' = 0x37 := rfl
+  have mk : ∀ x : Nat, 0x30 ≤ x → x ≤ 0x37 → OctalDigit x := fun x h1 h2 => ⟨h1, h2⟩
+  cases h with
+  | zero89 r _ => exact ⟨_, _, rfl, mk _ (by decide) (by decide)⟩
+  | one a r ha _ =>
+    have h1 : c '1' ≤ a := ha.1
+    have h2 : a ≤ c '7' := ha.2
+    exact ⟨_, _, rfl, mk a (by omega) (by omega)⟩
+  | two03 a b r ha _ _ =>
+    have h1 : c '0' ≤ a := ha.1
+    have h2 : a ≤ c '3' := ha.2
+    exact ⟨_, _, rfl, mk a (by omega) (by omega)⟩
+  | two47 a b r ha _ =>
+    have h1 : c '4' ≤ a := ha.1
+    have h2 : a ≤ c '7' := ha.2
+    exact ⟨_, _, rfl, mk a (by omega) (by omega)⟩
+  | three a b d r ha _ _ =>
+    have h1 : c '0' ≤ a := ha.1
+    have h2 : a ≤ c '3' := ha.2
+    exact ⟨_, _, rfl, mk a (by omega) (by omega)⟩
+
+theorem octal_zero : OctalDigit (c '0') := ⟨by decide, by decide⟩
+
 theorem consumeCharacterEscape_wb (hsrc : ∀ x ∈ src, x ≤ 0xFFFF) (n : Nat) (r : List Nat) (s : St) (h : BAt src K r s) :
     Wp (consumeCharacterEscape n s) (fun b s1 => Keep s s1 ∧
       if b = true then ∃ r1 v, BAt src K r1 s1 ∧ RxSpecB.CharacterEscape K.1 r r1 v ∧ s1.lastIntValue = (v : Nat)
-      else BAt src K r s1) := by
+      else BAt src K r s1 ∧ ¬∃ r1 v, RxSpecB.CharacterEscape K.1 r r1 v) := by
   unfold consumeCharacterEscape
   rx6_auto
-  all_goals (try rx6_false)
   all_goals (try (rx6_true; exact ⟨_, _, ‹BAt src K _ _›, ‹RxSpecB.CharacterEscape K.1 r _ _›, ‹_ = _›⟩))
-  · rename_i b s1 hk hb
+  · rename_i s1 _ _ hctl s2 _ _ hcc s3 _ _ s4 _ _ hhex s5 _ _ huni s6 _ _ hoct b s7 hk7 hb
     refine ⟨by rx6_keep, ?_⟩
     cases b
-    · rw [if_neg (by decide)] at hb ⊢; exact hb
-    · rw [if_pos rfl] at hb ⊢; exact hb
+    · rw [if_neg (by decide)] at hb ⊢
+      refine ⟨hb.1, ?_⟩
+      rintro ⟨r1, v, hce⟩
+      cases hce with
+      | f _ => exact hctl _ rfl (by simp)
+      | n _ => exact hctl _ rfl (by simp)
+      | r _ => exact hctl _ rfl (by simp)
+      | t _ => exact hctl _ rfl (by simp)
+      | v _ => exact hctl _ rfl (by simp)
+      | controlLetter l _ hl => exact hcc ⟨l, _, rfl, hl⟩
+      | zero _ _ => exact hoct _ rfl octal_zero
+      | hex a b' _ ha hb' => exact hhex ⟨a, b', _, rfl, ha, hb'⟩
+      | unicode m _ _ h4 => exact huni trivial ⟨m, _, _, rfl, h4⟩
+      | legacyOctal _ _ _ hl =>
+        obtain ⟨x, m, e, hx⟩ := legacyOctal_head hl
+        subst e
+        exact hoct x rfl hx
+      | identity _ _ _ hc hk _ =>
+        rcases hb.2 _ rfl with e | ⟨e1, e2⟩
+        · exact hc e
+        · exact hk e1 e2
+    · rw [if_pos rfl] at hb ⊢
+      obtain ⟨x, r1, hr, hsc, hc, hk, hat, hv⟩ := hb
+      subst hr
+      refine ⟨r1, x, hat, RxSpecB.CharacterEscape.identity x r1 hsc hc hk ⟨hctl x rfl, hoct x rfl, ?_, ?_⟩, hv⟩
+      · rintro ⟨e, a, b', r', e2, ha, hb'⟩
+        subst e e2
+        exact hhex ⟨a, b', r', rfl, ha, hb'⟩
+      · rintro ⟨e, r', v, h4⟩
+        subst e
+        exact huni trivial ⟨r1, r', v, rfl, h4⟩
   · rx6_true
     rename_i m hr h4
     subst hr
